@@ -1,6 +1,7 @@
 """C12 - results do not depend on the completion order of asynchronous evaluators; concurrent evaluations see only their own data."""
 
 import asyncio
+import re
 import sys
 from itertools import product
 
@@ -449,6 +450,14 @@ async def check_validity_product(ctx, case):
             ctx.count("validity_events")
             if ev[0] == "rc" and ev[3] != w.id:
                 ctx.violation("context-leak", f"is_valid_expression({s!r}): an evaluation for assignment {w.id} ran with the context of {ev[3]}")
+                return
+        # an evaluation asks for a key at most once per occurrence in the expression: more events in ONE world mean that several
+        # evaluations ran on the data handed out for one of them (and the others' data were never looked at)
+        for key in case["rc_keys"]:
+            asked = sum(1 for ev in w.log if ev[0] == "rc" and ev[1] == key)
+            written = len(re.findall(r"\[[ \t\f\r\n]*" + key + r"[ \t\f\r\n]*\]", s))
+            if asked > written:
+                ctx.violation("context-leak", f"is_valid_expression({s!r}): the requirement evaluator was asked for key {key} {asked} times with the data of ONE evaluation ({w.id}); the key is written {written} time(s) - several of the concurrent evaluations ran on the same evaluation's data")
                 return
         own = tuple(sorted((k, v) for k, v in w.rc.items() if k in case["rc_keys"]))
         if own not in rc_only:
